@@ -149,6 +149,7 @@ def run_history(job: Dict[str, Any], out, scratch: Path, tk: h5lib.Tokens):
         ev["keys"] = km.k
         emit({"t": "end", "tid": tid, "ev": ev})
         view = ev["view"]
+        graves = set()     # paths seen earlier in this history
         script = job.get("script")
         n = len(script) if script is not None else job.get("nops", 10)
         step = 0
@@ -168,7 +169,8 @@ def run_history(job: Dict[str, Any], out, scratch: Path, tk: h5lib.Tokens):
                     items = [h5lib.gen_op(rng, view, depth=job.get("depth", 3),
                                           values=job.get("values"),
                                           weights=job.get("weights"),
-                                          allow_copy_into_self=job.get("copy_into_self", True))]
+                                          allow_copy_into_self=job.get("copy_into_self", True),
+                                          graves=sorted(graves))]
             step += 1
             for e in items:
                 i += 1
@@ -182,6 +184,7 @@ def run_history(job: Dict[str, Any], out, scratch: Path, tk: h5lib.Tokens):
                 except Exception as ex:  # the implementation refused
                     ok, exc = False, type(ex).__name__ + ": " + str(ex)[:200]
                 ev = event(e, sess, ok, exc, extra=extra)
+                graves.update(tuple(n_["p"]) for n_ in view if n_["p"])
                 view = ev["view"]
                 emit({"t": "end", "tid": tid, "ev": ev})
         emit({"t": "done", "tid": tid})
